@@ -158,8 +158,10 @@ class ReadLine(Contract):
         return list(RI(c, u)) + [
             ("buf-holds-bytes-just-before-unreader-position", io_adjacent(content, u_pos(c, u))),
             ("unreader-buffer-empty", u_buf(c, u).length() == 0),
-            ("limit>=0", c.a["limit"].t >= 0),
-            ("ghost:fcrlf-definition", fc_axiom(p))]
+            ("limit>=0", c.a["limit"].t >= 0)]
+
+    def ghost_axioms(self, c):
+        return [fc_axiom(self.p0(c))]
 
     def modifies(self, c):
         u = c.a["unreader"]
@@ -350,8 +352,11 @@ class ParseHeaders(Contract):
         return [("block-is-followed-by-CRLF", And(0 <= a, a <= b, b + 2 <= N, crlf_at(b))),
                 ("unsafe:strip_header_spaces-off", Not(ex.truth(c.field(cfg, "strip_header_spaces"), c.st))),
                 ("unsafe:permit_obsolete_folding-off", Not(ex.truth(c.field(cfg, "permit_obsolete_folding"), c.st))),
-                ("limits-clamped", And(o.fields["limit_request_fields"].t >= 1, o.fields["limit_request_field_size"].t >= 0)),
-                ("ghost:fcrlf-definition", fc_def(a, b))]
+                ("limits-clamped", And(o.fields["limit_request_fields"].t >= 1, o.fields["limit_request_field_size"].t >= 0))]
+
+    def ghost_axioms(self, c):
+        bl = self.blk(c)
+        return [fc_def(bl[0], bl[1])] if bl is not None else []
 
     def modifies(self, c):
         return [("field", c.a["self"], "scheme")]
